@@ -22,18 +22,29 @@ def from_us(n: int) -> dt.datetime:
     return EPOCH + dt.timedelta(microseconds=n)
 
 
+_HANDLES: dict = {}
+
+
+def handle(b: bytes) -> str:
+    """Short stand-in for a long base64 text where only equality of texts matters: [n] with n unique per text."""
+    if b not in _HANDLES:
+        _HANDLES[b] = len(_HANDLES) + 1
+    return f"[{_HANDLES[b]}]"
+
+
 def coq_key(k, with_txt=True, with_pub=True) -> str:
-    """kskm Key (or duck) -> Coq mkKey literal. k.public_key is base64 bytes."""
+    """kskm Key (or duck) -> Coq mkKey literal. k.public_key is base64 bytes.
+    with_txt: True = full text, 'handle' = short unique handle, False = empty."""
     pub = base64.b64decode(k.public_key) if with_pub else b""
-    ptxt = txt(k.public_key.decode()) if with_txt else "[]"
+    ptxt = handle(bytes(k.public_key)) if with_txt == "handle" else (txt(k.public_key.decode()) if with_txt else "[]")
     alg = k.algorithm.value if hasattr(k.algorithm, "value") else int(k.algorithm)
     return (f"(mkKey {txt(k.key_identifier)} {z(k.key_tag)} {z(k.ttl)} {z(k.flags)} {z(k.protocol)} {z(alg)} "
             f"{ptxt} {zlist(pub)})")
 
 
 def coq_sig(s, with_data=True) -> str:
-    data = base64.b64decode(s.signature_data) if with_data and s.signature_data else b""
-    dtxt = txt(s.signature_data.decode()) if with_data else "[]"
+    data = base64.b64decode(s.signature_data) if with_data is True and s.signature_data else b""
+    dtxt = handle(b"sig:" + bytes(s.signature_data)) if with_data == "handle" else (txt(s.signature_data.decode()) if with_data else "[]")
     alg = s.algorithm.value if hasattr(s.algorithm, "value") else int(s.algorithm)
     typ = s.type_covered.value if hasattr(s.type_covered, "value") else int(s.type_covered)
     return (f"(mkSig {txt(s.key_identifier)} {z(s.ttl)} {z(typ)} {z(alg)} {z(s.labels)} {z(s.original_ttl)} "
@@ -52,15 +63,18 @@ def coq_algpolicy(a) -> str:
     raise ValueError(name)
 
 
-def coq_sigpolicy(p) -> str:
-    algs = "[" + ";".join(coq_algpolicy(a) for a in sorted(p.algorithms, key=lambda a: (a.algorithm.value, a.bits, getattr(a, "exponent", 0)))) + "]"
+def coq_sigpolicy(p, keep_order=False) -> str:
+    al = list(p.algorithms) if keep_order else sorted(p.algorithms, key=lambda a: (a.algorithm.value, a.bits, getattr(a, "exponent", 0)))
+    algs = "[" + ";".join(coq_algpolicy(a) for a in al) + "]"
     return (f"(mkSigPolicy {z(us(p.publish_safety))} {z(us(p.retire_safety))} {z(us(p.max_signature_validity))} "
             f"{z(us(p.min_signature_validity))} {z(us(p.max_validity_overlap))} {z(us(p.min_validity_overlap))} {algs})")
 
 
-def coq_bundle(b, with_txt=True, with_data=False, with_pub=True) -> str:
-    keys = "[" + ";".join(coq_key(k, with_txt, with_pub) for k in sorted(b.keys, key=lambda k: (k.key_identifier, k.public_key))) + "]"
-    sigs = "[" + ";".join(coq_sig(s, with_data) for s in sorted(b.signatures, key=lambda s: (s.key_identifier, s.key_tag))) + "]"
+def coq_bundle(b, with_txt=True, with_data=False, with_pub=True, keep_order=False) -> str:
+    ks = list(b.keys) if keep_order else sorted(b.keys, key=lambda k: (k.key_identifier, k.public_key))
+    ss = list(b.signatures) if keep_order else sorted(b.signatures, key=lambda s: (s.key_identifier, s.key_tag))
+    keys = "[" + ";".join(coq_key(k, with_txt, with_pub) for k in ks) + "]"
+    sigs = "[" + ";".join(coq_sig(s, with_data) for s in ss) + "]"
     signers = None
     if getattr(b, "signers", None):
         signers = "[" + ";".join(txt(s.key_identifier or "") for s in sorted(b.signers, key=lambda s: s.key_identifier or "")) + "]"
@@ -68,7 +82,7 @@ def coq_bundle(b, with_txt=True, with_data=False, with_pub=True) -> str:
 
 
 def coq_request(r, **kw) -> str:
-    return (f"(mkRequest {txt(r.id)} {z(r.serial)} {txt(r.domain)} {coq_sigpolicy(r.zsk_policy)} "
+    return (f"(mkRequest {txt(r.id)} {z(r.serial)} {txt(r.domain)} {coq_sigpolicy(r.zsk_policy, kw.get('keep_order', False))} "
             f"[" + ";\n  ".join(coq_bundle(b, **kw) for b in r.bundles) + "])")
 
 
